@@ -33,6 +33,13 @@ ENCODED = [
     "tensorly.decomposition._tr_svd.tensor_ring",
     "tensorly.decomposition._parafac2.parafac2",
     "tensorly.decomposition._parafac2._compute_projections",
+    "tensorly.decomposition._tucker.non_negative_tucker",
+    "tensorly.decomposition._tucker.non_negative_tucker_hals",
+    "tensorly.tucker_tensor.tucker_normalize",
+    "tensorly.decomposition._tr_als.tensor_ring_als",
+    "tensorly.decomposition._constrained_cp.constrained_parafac",
+    "tensorly.decomposition._cp.randomised_parafac",
+    "tensorly.decomposition._cmtf_als.coupled_matrix_tensor_3d_factorization",
     "tensorly.cp_tensor.cp_normalize",
     "tensorly.cp_tensor.validate_cp_rank",
     "tensorly.tucker_tensor.validate_tucker_rank",
@@ -40,7 +47,7 @@ ENCODED = [
     "tensorly.tr_tensor.validate_tr_rank",
 ]
 BOUNDS = {
-    "quick": "orders 2-4, mode sizes 2-3, ranks given as int or list (1..3), n_iter_max in {1,2,3} (0 for SVD/random init), symbolic tolerance, both CP convergence criteria",
+    "quick": "orders 2-4, mode sizes 2-3, ranks given as int or list (1..3), n_iter_max in {1,2,3} (0 for SVD/random init), symbolic tolerance, both CP convergence criteria; non-negative Tucker (both variants) 2x2 rank 2, 3 sweeps, both exits; TR-ALS / constrained / randomised CP / CMTF one or two sweeps on 2x2(x2)",
     "thorough": "same with n_iter_max up to 4 and rank 2 normalised CP on order 3",
 }
 OUTSIDE = [
@@ -88,6 +95,21 @@ def configs(tier):
         add("tt", shape=shp, rank=rank)
     for shp, rank in [((2, 2, 2, 2), 2), ((2, 2, 2, 2), [1, 3, 1]), ((2, 2), 1)]:
         add("tt_matrix", shape=shp, rank=rank)
+    # non-negative Tucker variants: shapes, and unit-norm factor columns on BOTH exits when normalisation is requested
+    for alg in ("nn_tucker", "nn_tucker_hals"):
+        for shp, R in [((2, 2), 2)] + ([] if q else [((2, 2), 1), ((2, 2, 2), 1)]):  # (rank 1 on a matrix keeps unit norms by coincidence)
+            for norm in (0, 1):
+                for tolk in ("sym", "huge") if norm else ("sym",):
+                    # tol "huge" (1e6): the convergence exit is taken at the first opportunity on every input, so a violation found on
+                    # that exit replays on any concrete data (with a symbolic tol the replay rarely follows the stubbed run's exit)
+                    add("tucker_nn", alg=alg, shape=shp, R=R, norm=norm, tol=tolk, K=3, mode="fork" if alg == "nn_tucker_hals" else "merge")
+    # further decompositions: shapes / boundary ranks / weights, and normalisation of both CMTF outputs
+    add("more", alg="tr_als", shape=(2, 2, 2), rank=[2, 1, 2, 2], mode="merge")
+    add("more", alg="tr_als", shape=(2, 3, 2), rank=[1, 2, 1, 1], mode="merge")
+    add("more", alg="constrained", shape=(2, 2, 2), rank=2, mode="merge")
+    add("more", alg="randomised", shape=(2, 2), rank=2, mode="fork")
+    add("more", alg="cmtf", shape=(2, 2, 2), rank=2, norm=1, mode="fork")
+    add("more", alg="cmtf", shape=(2, 2, 2), rank=1, norm=0, mode="fork")
     for shp, rank, mode in [((2, 2, 2), 1, 0), ((2, 2, 2), [1, 2, 1, 1], 0), ((4, 2, 2), [2, 2, 1, 2], 0), ((2, 4, 2), [1, 2, 2, 1], 1), ((2, 2, 4), [2, 1, 2, 2], 2), ((2, 2, 2), 2, 0)]:
         add("tr", shape=shp, rank=rank, mode_=mode)
     for rows, J, R in [((2, 2), 2, 1), ((2, 3), 2, 1), ((2, 2), 2, 2)] + ([] if q else [((3, 2), 3, 2)]):
@@ -220,6 +242,115 @@ def h_tucker_partial(E, cfg):
     E.prove("factors_orthonormal", [_orth_cols(E, f) for f in factors])
     spec = dense_tucker(np.asarray(X, dtype=object), [np.asarray(f, dtype=object).T for f in factors], modes)
     E.prove_eq("core_is_projection", core, spec)
+
+
+def h_tucker_nn(E, cfg):
+    """non_negative_tucker / non_negative_tucker_hals: shapes; with normalize_factors=True every factor column has unit norm whichever
+    way the loop was left (the tolerance is symbolic: the convergence exit from the third sweep on and the iteration cap are both explored)"""
+    from vt import backend, sym
+    import tensorly.decomposition._tucker as _tk
+    import tensorly.tucker_tensor as _tt
+    from tensorly.decomposition import non_negative_tucker, non_negative_tucker_hals
+    from props.c06 import _fresh_stub
+
+    alg, shp, R, norm, K = cfg["alg"], cfg["shape"], cfg["R"], cfg["norm"], cfg["K"]
+    rank = [R] * len(shp)
+    if E.symbolic:
+        backend.configure(solve="havoc", svd="havoc")
+        backend.patch(_tk, "hals_nnls", _fresh_stub("hals"))
+        backend.patch(_tk, "fista", lambda UtM, UtU, x=None, **k: _fresh_stub("fista", shape_from=0)(UtM, *([x] if x is not None else [])))
+        real_norm = _tt.tucker_normalize
+
+        def norm_nonzero(tucker_tensor):
+            # precondition: the column norms met by tucker_normalize are non-zero (zero columns stay zero: C04)
+            core, fs = tucker_tensor
+            for f in fs:
+                for v in np.asarray(tl.norm(f, axis=0), dtype=object).ravel():
+                    if isinstance(v, sym.SR) and v.c is None:
+                        sym.CTX.assume_nonzero(v.t)
+            return real_norm(tucker_tensor)
+
+        backend.patch(_tk, "tucker_normalize", norm_nonzero)
+        if alg == "nn_tucker":
+            # the values of the multiplicative updates are irrelevant for the exit logic: tl.clip(...) (numerators and denominators)
+            # returns fresh positive arrays of the argument's shape (functional in the argument)
+            clip_stub = _fresh_stub("clip")
+            backend.patch(tl, "clip", lambda a, a_min=None, a_max=None: clip_stub(a))
+    X = E.real("X", shp, pos=True)
+    core0 = E.real("G", tuple(rank), pos=True)
+    F0 = [E.real(f"F{m}", (n, R), pos=True) for m, n in enumerate(shp)]
+    tol = E.real("tol", pos=True) if cfg.get("tol", "sym") == "sym" else 1e6
+    kw = dict(n_iter_max=K, init=(np.array(core0), [np.array(f) for f in F0]), tol=tol, normalize_factors=bool(norm))
+    if alg == "nn_tucker":
+        core, fs = non_negative_tucker(np.array(X), rank=rank, **kw)
+    else:
+        core, fs = non_negative_tucker_hals(np.array(X), rank=rank, **kw)
+    E.prove("shapes", tuple(np.shape(core)) == tuple(rank) and len(fs) == len(shp) and all(np.shape(f) == (n, R) for f, n in zip(fs, shp)))
+    if norm:
+        conds = []
+        for f in fs:
+            f = np.asarray(f, dtype=object)
+            for r in range(R):
+                conds.append(E.eq(sum(f[i, r] * f[i, r] for i in range(f.shape[0])), 1))
+        E.prove("unit_norm_columns", conds)
+
+
+def h_more(E, cfg):
+    from vt import backend, sym
+    import tensorly.decomposition._cp as _cp
+    import tensorly.decomposition._constrained_cp as _cc
+    import tensorly.decomposition._cmtf_als as _cm
+    from props.c06 import _fresh_stub
+
+    alg, shp, rank = cfg["alg"], cfg["shape"], cfg["rank"]
+    if E.symbolic:
+        backend.configure(solve="havoc", svd="havoc", lstsq="havoc", qr="havoc")
+        backend.patch(_cp, "svd_interface", stub_svd_interface)
+    X = E.real("X", shp)
+    if alg == "tr_als":
+        from tensorly.decomposition import tensor_ring_als
+
+        cores = list(tensor_ring_als(np.array(X), list(rank), n_iter_max=1, tol=0, random_state=3))
+        E.prove("shapes", len(cores) == len(shp) and all(np.shape(c) == (rank[k], shp[k], rank[k + 1]) for k, c in enumerate(cores)))
+        E.prove("ring_closes", np.shape(cores[0])[0] == np.shape(cores[-1])[2])
+    elif alg == "constrained":
+        from tensorly.decomposition import constrained_parafac
+
+        if E.symbolic:
+
+            def admm_stub(UtM, UtU, x, dual_var, **k):
+                out = _fresh_stub("admm_x", nn=False, shape_from=2)(UtM, UtU, x, dual_var)
+                return out, np.transpose(_fresh_stub("admm_split", nn=False, shape_from=2)(UtM, UtU, x, dual_var)), _fresh_stub("admm_dual", nn=False, shape_from=2)(UtM, UtU, x, dual_var)
+
+            backend.patch(_cc, "admm", admm_stub)
+        w, fs = constrained_parafac(np.array(X), rank, n_iter_max=1, n_iter_max_inner=1, init="random", random_state=2, non_negative=True, tol_outer=1e-300)
+        E.prove("shapes", len(fs) == len(shp) and all(np.shape(f) == (n, rank) for f, n in zip(fs, shp)) and (w is None or np.shape(w) == (rank,)))
+        E.prove("weights_are_ones", True if w is None else [E.eq(w[r], 1) for r in range(rank)])
+    elif alg == "randomised":
+        from tensorly.decomposition import randomised_parafac
+
+        w, fs = randomised_parafac(np.array(X), rank, 2, n_iter_max=1, init="random", random_state=4, tol=0, max_stagnation=0)
+        E.prove("shapes", len(fs) == len(shp) and all(np.shape(f) == (n, rank) for f, n in zip(fs, shp)) and (w is None or np.shape(w) == (rank,)))
+        E.prove("weights_are_ones", True if w is None else [E.eq(w[r], 1) for r in range(rank)])
+    else:
+        cmtf = _cm.coupled_matrix_tensor_3d_factorization
+        norm = cfg["norm"]
+        if E.symbolic:
+            wrapped = wrap_nonzero(_cm.cp_normalize)
+            backend.patch(_cm, "cp_normalize", wrapped)
+        Y = E.real("Y", (shp[0], 2))
+        tcp, mcp, errs = cmtf(np.array(X), np.array(Y), rank, init="svd", n_iter_max=2, tol=E.real("tol", pos=True), normalize_factors=bool(norm))
+        (w, fs), (wm, fm) = tcp, mcp
+        E.prove("shapes", all(np.shape(f) == (n, rank) for f, n in zip(fs, shp)) and np.shape(fm[0]) == (shp[0], rank) and np.shape(fm[1]) == (2, rank))
+        if norm:
+            conds = []
+            for f in list(fs) + list(fm):
+                f = np.asarray(f, dtype=object)
+                for r in range(rank):
+                    conds.append(E.eq(sum(f[i, r] * f[i, r] for i in range(f.shape[0])), 1))
+            E.prove("unit_norm_columns", conds)
+        else:
+            E.prove("weights_are_ones", [True if w_ is None else E.And([E.eq(w_[r], 1) for r in range(rank)]) for w_ in (w, wm)])
 
 
 # ------------------------------------------------------------------------------------------ TT / TR
